@@ -19,7 +19,9 @@ Every Python value is a `pv` (coq/Lib/PyVal.v) - the translation is untyped, lik
   Operators are the total functions of Lib/PyVal.v (`py_arith`, `py_cmp`, `py_eq`, `py_in`, `py_truth`, ...),
   which return `comp`: `None <= 0` is Raise TypeError, `x // 0` Raise OtherError, `8.0 in (8, 16)` is true, `and` / `or`
   / conditional expressions evaluate their operands lazily, left to right.
-* tuple / list / dict displays and list comprehensions (one `for`, no `if`) build YTuple / YList / YDict values;
+* tuple / list / dict displays and list comprehensions (one `for`, no `if`) build YTuple / YList / YDict values
+  (a comprehension whose element does not mention the loop variable evaluates the element once - if the iterable is
+  not empty - and repeats the value: py_const_comp, or py_repeat when the element is a plain value; otherwise the element is evaluated per item: py_listcomp);
   they are immutable in the translation: any statement that would mutate one (`d[k] = v`, `.append`) aborts, so
   sharing one dict between several list elements is unobservable.  `range(..)` = YRange, iterated by py_iter.
 * descriptor constructors without side effect - `In`, `Out` (imported from amaranth.lib.wiring), `unsigned`,
@@ -400,6 +402,18 @@ class Fn:
             if g.ifs or g.is_async or not isinstance(g.target, ast.Name):
                 raise Untranslatable("comprehension with a condition / a tuple target")
             it = self.pv(self.ex(g.iter, env, st), st)
+            if not any(isinstance(y, ast.Name) and y.id == g.target.id for y in ast.walk(n.elt)):
+                # the element does not mention the loop variable: one value, len(iterable) times
+                s2 = St(st.tr)
+                v = self.pv(self.ex(n.elt, env, s2), s2)
+                if s2.tr != st.tr:
+                    raise Untranslatable("foreign call or store inside a comprehension body")
+                r = self.fresh("l")
+                if not s2.b.items:
+                    st.b.letm(r, f"py_repeat {v} {it}")          # a plain value: nothing to evaluate
+                else:
+                    st.b.letm(r, f"py_const_comp {s2.b.wrap(f'(Ret {v})')} {it}")
+                return V(r)
             items = self.fresh("items")
             st.b.letm(items, f"py_iter {it}")
             x = self.fresh(g.target.id)
